@@ -642,18 +642,21 @@ impl DatabaseBuilder {
             }
         }
 
-        let latest_segments: HashMap<BucketId, SegmentId> =
-            segments
-                .iter()
-                .fold(HashMap::new(), |mut latest, (bucket_segment_id, _)| {
-                    latest
-                        .entry(bucket_segment_id.bucket_id)
-                        .and_modify(|segment_id| {
-                            *segment_id = (*segment_id).max(bucket_segment_id.segment_id);
-                        })
-                        .or_insert(bucket_segment_id.segment_id);
-                    latest
-                });
+        // The live segment is the latest one that has an events file (see
+        // `BucketSegmentWriter::latest`): a rollover interrupted right after it created the next
+        // segment's directory leaves a directory without one.
+        let latest_segments: HashMap<BucketId, SegmentId> = segments
+            .iter()
+            .filter(|(_, files)| files.events.is_some())
+            .fold(HashMap::new(), |mut latest, (bucket_segment_id, _)| {
+                latest
+                    .entry(bucket_segment_id.bucket_id)
+                    .and_modify(|segment_id| {
+                        *segment_id = (*segment_id).max(bucket_segment_id.segment_id);
+                    })
+                    .or_insert(bucket_segment_id.segment_id);
+                latest
+            });
 
         // Remove latest segments
         segments.retain(|bucket_segment_id, _| {
